@@ -59,6 +59,119 @@ theorem kidTokens_mem (cls hex : Ranges) : ∀ (s : Bytes), kidTokens cls hex s 
     intro h
     unfold kidTokens at h
     simp only [hin, hp, if_false, Bool.false_eq_true] at h
+/-! ### the executable predicate is the language of the pattern tree -/
+
+
+
+def Tok (cls hex : Ranges) (p : Bytes) : Prop :=
+  (∃ b, p = [b] ∧ inRanges cls b = true) ∨ (∃ h1 h2, p = [PCT, h1, h2] ∧ inRanges hex h1 = true ∧ inRanges hex h2 = true)
+
+theorem alt_iff_tok (cls hex : Ranges) (p : Bytes) :
+    (Rx.alt [.cls cls, .cat [.lit [37], .rep 2 2 (.cls hex)]]).M p ↔ Tok cls hex p := by
+  simp only [Rx.M, Rx.MAlt, Rx.MCat, Tok, or_false]
+  constructor
+  · rintro (h | ⟨a, b, rfl, rfl, a2, b2, rfl, ⟨parts, h2, h2', rfl, hp⟩, rfl⟩)
+    · exact Or.inl h
+    · right
+      match parts, h2, h2' with
+      | [p1, p2], _, _ =>
+        obtain ⟨x1, rfl, hx1⟩ := hp p1 (by simp)
+        obtain ⟨x2, rfl, hx2⟩ := hp p2 (by simp)
+        exact ⟨x1, x2, by simp [PCT], hx1, hx2⟩
+      | [], h, _ => simp at h
+      | [_], h, _ => simp at h
+      | _ :: _ :: _ :: _, _, h => simp at h
+  · rintro (h | ⟨h1, h2, rfl, hh1, hh2⟩)
+    · exact Or.inl h
+    · right
+      refine ⟨[37], [h1, h2], by simp [PCT], rfl, [h1, h2], [], by simp, ⟨[[h1], [h2]], by simp, by simp, by simp, ?_⟩, rfl⟩
+      intro p hp
+      simp at hp
+      rcases hp with rfl | rfl
+      · exact ⟨h1, rfl, hh1⟩
+      · exact ⟨h2, rfl, hh2⟩
+
+theorem kidTokens_of_parts (cls hex : Ranges) (hpct : inRanges cls PCT = false) :
+    ∀ parts : List Bytes, (∀ p ∈ parts, Tok cls hex p) → kidTokens cls hex parts.flatten = true := by
+  intro parts
+  induction parts with
+  | nil => intro _; rfl
+  | cons p rest ih =>
+    intro h
+    have hrest := ih (fun q hq => h q (List.mem_cons_of_mem _ hq))
+    rcases h p (by simp) with ⟨b, rfl, hb⟩ | ⟨h1, h2, rfl, hh1, hh2⟩
+    · simp only [List.flatten_cons, List.singleton_append]
+      unfold kidTokens
+      simp only [hb, if_true]
+      exact hrest
+    · simp only [List.flatten_cons, List.cons_append, List.nil_append]
+      unfold kidTokens
+      simp only [hpct, Bool.false_eq_true, if_false, if_true, hh1, hh2, Bool.true_and]
+      exact hrest
+
+theorem parts_of_kidTokens (cls hex : Ranges) :
+    ∀ s : Bytes, kidTokens cls hex s = true → ∃ parts : List Bytes, s = parts.flatten ∧ ∀ p ∈ parts, Tok cls hex p := by
+  intro s
+  induction s using kidTokens.induct cls with
+  | case1 => intro _; exact ⟨[], rfl, by simp⟩
+  | case2 b rest hin ih =>
+    intro h
+    unfold kidTokens at h
+    simp only [hin, if_true] at h
+    obtain ⟨parts, rfl, hp⟩ := ih h
+    refine ⟨[b] :: parts, by simp, ?_⟩
+    intro p hpm
+    rcases List.mem_cons.mp hpm with rfl | hpm
+    · exact Or.inl ⟨b, rfl, hin⟩
+    · exact hp p hpm
+  | case3 h1 h2 rest' hin ih =>
+    intro h
+    simp only [kidTokens, hin, if_false, Bool.false_eq_true, if_true, Bool.and_eq_true] at h
+    obtain ⟨parts, rfl, hp⟩ := ih h.2
+    refine ⟨[PCT, h1, h2] :: parts, by simp, ?_⟩
+    intro p hpm
+    rcases List.mem_cons.mp hpm with rfl | hpm
+    · exact Or.inr ⟨h1, h2, rfl, h.1.1, h.1.2⟩
+    · exact hp p hpm
+  | case4 rest hno hin =>
+    intro h
+    unfold kidTokens at h
+    simp only [hin, if_false, Bool.false_eq_true, if_true] at h
+  | case5 b rest hin hp =>
+    intro h
+    unfold kidTokens at h
+    simp only [hin, hp, if_false, Bool.false_eq_true] at h
+
+/-- the executable predicate decides exactly the language of the pattern tree -/
+theorem kidMatches_iff_language (cls hex : Ranges) (hpct : inRanges cls PCT = false) (s : Bytes) :
+    kidMatches cls hex s = true ↔ (kidShape cls hex).M s := by
+  unfold kidMatches kidShape
+  simp only [Rx.M, Bool.and_eq_true, Bool.not_eq_true', List.isEmpty_eq_false_iff]
+  constructor
+  · rintro ⟨hne, ht⟩
+    obtain ⟨parts, rfl, hp⟩ := parts_of_kidTokens cls hex s ht
+    refine ⟨parts, ?_, rfl, fun p hpm => (alt_iff_tok cls hex p).mpr (hp p hpm)⟩
+    intro e; subst e; exact hne rfl
+  · rintro ⟨parts, hne, rfl, hp⟩
+    have htok : ∀ p ∈ parts, Tok cls hex p := fun p hpm => (alt_iff_tok cls hex p).mp (hp p hpm)
+    refine ⟨?_, kidTokens_of_parts cls hex hpct parts htok⟩
+    cases parts with
+    | nil => exact absurd rfl hne
+    | cons p rest =>
+      rcases htok p (by simp) with ⟨b, rfl, _⟩ | ⟨h1, h2, rfl, _, _⟩ <;> simp
+theorem kidClasses_shape (rx : Rx) (cls hex : Ranges) (h : kidClasses rx = some (cls, hex)) :
+    rx = .cat [.bot, kidShape cls hex, .eot] := by
+  unfold kidClasses at h
+  split at h
+  · cases h; rfl
+  · cases h
+
+theorem fullMatch_kid (rx : Rx) (cls hex : Ranges) (h : kidClasses rx = some (cls, hex)) (hpct : inRanges cls PCT = false) (s : Bytes) :
+    kidMatches cls hex s = true ↔ rx.FullMatch s := by
+  rw [kidClasses_shape rx cls hex h]
+  simp only [Rx.FullMatch]
+  exact kidMatches_iff_language cls hex hpct s
+
 /-! ### path/filepath -/
 
 theorem splitSlash_ne_nil (a : Bytes) : ∃ c cs, splitSlash a = c :: cs := by
